@@ -25,12 +25,13 @@ RULE = ("cases: chunks of kind sequences; executions: filter_output per (sequenc
         "(sequence, criterion) that contain both good and bad sources")
 ASSUMPTIONS = ["best chi^2 never equals the threshold", "n_data >= 1"]
 REQUIRED_CLASSES = ['criterion-chi', 'criterion-cpd', 'auto-names', 'explicit-names', 'input-file', 'input-list', 'all-good', 'all-bad', 'mixed', 'good-by-chi-only', 'good-by-cpd-only',
-                    'length-10']
+                    'length-10', 'one-name-explicit', 'best-chi2-nan-or-inf']
 TIMEOUT = {'quick': 600, 'thorough': 3000}
 
 CHI_T, CPD_T = 10.0, 3.0
 #        best chi2, flags (n_data = count of 1/4)
-KINDS = {'G': (4.0, (1, 4, 0, 9)), 'C': (8.0, (1, 1, 2, 3)), 'P': (12.0, (1, 1, 4, 1, 1, 0)), 'B': (40.0, (4, 1, 3))}
+KINDS = {'G': (4.0, (1, 4, 0, 9)), 'C': (8.0, (1, 1, 2, 3)), 'P': (12.0, (1, 1, 4, 1, 1, 0)), 'B': (40.0, (4, 1, 3)),
+         'N': (float('nan'), (1, 1, 4)), 'I': (float('inf'), (1, 4))}        # a best chi^2 that is NaN or infinite is not below any threshold
 GOOD = {'chi': {'G', 'C'}, 'cpd': {'G', 'P'}}
 
 
@@ -42,6 +43,11 @@ def setup(tier, seed):
             for t in itertools.product(a + b, repeat=L):
                 if tier == 'thorough' or (sum(1 for x in t if x == a) in (1, L - 1, L // 2) and t[0] != t[-1]):
                     seqs.append(''.join(t))
+    # sources whose best chi^2 is NaN / infinite (every fit failed): all sequences of length <= 3 that contain one
+    for L in (1, 2, 3):
+        for t in itertools.product('GBNI', repeat=L):
+            if 'N' in t or 'I' in t:
+                seqs.append(''.join(t))
     chunk = 60
     return {'tier': tier, 'seed': seed, 'cases': [{'seqs': seqs[i:i + chunk], 'first': i} for i in range(0, len(seqs), chunk)]}
 
@@ -77,7 +83,7 @@ def _record(kind, idx, meta):
     s.error = np.ones(len(flags)) * 0.25
     i = FitInfo(s)
     n = 1 + idx % 3
-    i.chi2 = best + np.arange(n) * 1.75 + 0.01 * idx
+    i.chi2 = best + np.arange(n) * 1.75 + 0.01 * idx if best == best else np.array([best] * n)
     i.av = np.arange(n) * 0.5
     i.sc = np.arange(n) * -0.25
     i.model_id = np.arange(n)[::-1].copy()
@@ -114,11 +120,11 @@ def run_case(ctx, case, rec, d):
         for crit in ('chi', 'cpd'):
             form = ['file', 'list'][(idx + (crit == 'cpd')) % 2] if len(seq) > 3 else None
             for frm in (['file', 'list'] if form is None else [form]):
-                naming = 'auto' if (frm == 'file' and (idx + len(seq)) % 2 == 0) else 'explicit'
+                naming = ['auto', 'explicit', 'good-explicit', 'bad-explicit'][(idx + len(seq)) % 4] if frm == 'file' else 'explicit'
                 n += 1
                 recs = [_record(k, j, meta) for j, k in enumerate(seq)]
                 want_c = [canon(_strip(r)) for r in recs]
-                inp = os.path.join(d, 'in_%d' % n)
+                inp = os.path.join(d, 'in_%d%s' % (n, '_good' if n % 5 == 0 else ''))       # an input that is itself a '_good' file of an earlier pass
                 if frm == 'file':
                     fo = FitInfoFile(inp, 'w')
                     for r in recs:
@@ -128,11 +134,13 @@ def run_case(ctx, case, rec, d):
                 else:
                     arg = recs
                 kw = {'chi': CHI_T} if crit == 'chi' else {'cpd': CPD_T}
-                if naming == 'auto':
-                    good_p, bad_p = inp + '_good', inp + '_bad'
-                else:
-                    good_p, bad_p = os.path.join(d, 'g_%d' % n), os.path.join(d, 'b_%d' % n)
-                    kw.update(output_good=good_p, output_bad=bad_p)
+                good_p, bad_p = inp + '_good', inp + '_bad'
+                if naming in ('explicit', 'good-explicit'):
+                    good_p = os.path.join(d, 'g_%d' % n)
+                    kw['output_good'] = good_p
+                if naming in ('explicit', 'bad-explicit'):
+                    bad_p = os.path.join(d, 'b_%d' % n)
+                    kw['output_bad'] = bad_p
                 sub = {'seq': seq, 'criterion': crit, 'form': frm, 'naming': naming}
                 try:
                     filter_output(arg, **kw)
@@ -146,7 +154,9 @@ def run_case(ctx, case, rec, d):
                 rec.ev(len(seq))
                 rec.state((seq, crit, frm, naming))
                 rec.cls('criterion-' + crit)
-                rec.cls('auto-names' if naming == 'auto' else 'explicit-names')
+                rec.cls({'auto': 'auto-names', 'explicit': 'explicit-names'}.get(naming, 'one-name-explicit'))
+                if 'N' in seq or 'I' in seq:
+                    rec.cls('best-chi2-nan-or-inf')
                 rec.cls('input-' + frm)
                 if len(seq) == 10:
                     rec.cls('length-10')
